@@ -589,14 +589,17 @@ def gen_expr(rng, in_loop, indexed, p_vec=0.06):
 
 
 def gen_points(rng, case, n_pts):
+    """Integer valuations of what the equations mention (unused declarations stay 0 on both sides)."""
     recs, _ = collect_delays(case)
+    used = used_names(case)
     pts = []
     for _ in range(n_pts):
-        vals = {v["name"]: [rng.randint(-4, 5) for _ in range(N)] for v in case["vars"]}
+        vals = {v["name"]: [rng.randint(-4, 5) for _ in range(N if v["vec"] else 1)]
+                for v in case["vars"] if v["name"] in used}
         for k in range(len(recs)):
-            vals["_pymoca_delay_%d" % k] = [rng.randint(-4, 5) for _ in range(N)]
+            vals["_pymoca_delay_%d" % k] = [rng.randint(-4, 5)]
         pts.append({"time": rng.randint(-3, 6), "vals": vals,
-                    "der": {v["name"]: rng.randint(-4, 5) for v in case["vars"] if v["kind"] == "plain" and not v["vec"]}})
+                    "der": {n: rng.randint(-4, 5) for n in sorted(der_names(case))}})
     return pts
 
 
@@ -678,7 +681,7 @@ def gen_model(rng, p_bad=0.22, p_loopdep=0.04, p_nohelper=0.04, kind="random"):
     head, tail = eqs[:2], eqs[2:]
     rng.shuffle(tail)
     case = prune(rng, {"N": N, "vars": vs, "eqs": head + tail, "kind": kind})
-    case["points"] = gen_points(rng, case, 2)
+    case["points"] = gen_points(rng, case, 1)
     return case
 
 
@@ -788,7 +791,7 @@ def malformed_case(rng):
 
 
 # ---- the check --------------------------------------------------------------------------------------
-def run_children(ctx, cases, workers=3):
+def run_children(ctx, cases, workers=4):
     from concurrent.futures import ThreadPoolExecutor
     if len(cases) < 30:
         return core.run_child(ctx, "c22", cases, timeout=1500)
@@ -809,7 +812,9 @@ PREAMBLE = "From Coq Require Import ZArith.\nFrom PV Require Import Model.C22_de
 
 
 def run(ctx):
+    t_props = time.time()
     core.check_props(ctx, "C22.v", THEOREMS)
+    t_props = time.time() - t_props
     fps = {}
     for path, names in (("/src/pymoca/backends/casadi/model.py", {"_post_checks", "delay_arguments_function", "_symbols"}),
                         ("/src/pymoca/backends/casadi/generator.py", {"exitExpression", "exitForEquation", "ForLoop"}),
@@ -822,7 +827,7 @@ def run(ctx):
 
     cases = corpus_cases(ctx.rng) + category_cases(ctx.rng)
     n_fixed = len(cases)
-    n_rand = ctx.scaled(260, 4000)
+    n_rand = ctx.scaled(200, 3000)
     for _ in range(n_rand):
         cases.append(gen_model(ctx.rng))
     for _ in range(ctx.scaled(8, 60)):
@@ -862,9 +867,9 @@ def run(ctx):
         elif not v:
             core.violation(ctx, "impl-violation", {"input": c, "observed": r, "what": "observation has no model counterpart"})
     t_coq = time.time()
-    bad = core.coq_eval_cases(ctx, "gen", PREAMBLE, "model * list envd * obs", enc, "check_case", shard=120)
+    bad = core.coq_eval_cases(ctx, "gen", PREAMBLE, "model * list envd * obs", enc, "check_case", shard=40)
     t_coq = time.time() - t_coq
-    ctx.notes["timing_s"] = {"implementation_children": round(t_child, 1), "coq_correspondence": round(t_coq, 1)}
+    ctx.notes["timing_s"] = {"props_recompile": round(t_props, 1), "implementation_children": round(t_child, 1), "coq_correspondence": round(t_coq, 1)}
     mism = list(range(len(enc))) if bad is None else bad
     ctx.oblige("correspondence:model-vs-transfer_model", not mism,
                "mismatching cases (indices into the case list): %s" % [idx[j] for j in mism[:10]])
@@ -874,10 +879,13 @@ def run(ctx):
                        {"correspondence": "Model/C22_delay.v check_case vs transfer_model + delay_arguments_function",
                         "input": cases[j], "observed": results[j]}, no_input=True)
 
+    known = core.load_known(ctx.pid)
+    kcases = [prepare(e["replay"]["input"]) for e in known]
+    kres = core.run_child(ctx, "c22", kcases) if kcases else []
+    kverdict = {e["tag"]: judge(c, r) for e, c, r in zip(known, kcases, kres)}
+
     def still_fails(entry):
-        c = prepare(entry["replay"]["input"])
-        r = core.run_child(ctx, "c22", [c])[0]
-        v = judge(c, r)
+        v = kverdict.get(entry["tag"])
         return bool(v and v[0] == entry["tag"])
     core.replay_known(ctx, still_fails)
 
